@@ -135,6 +135,12 @@ fn to_model(x: u32) -> i64 {
     }
 }
 
+/// ledger *positions* of a run that starts at `base` instead of near 0 ("high" runs: the run crosses i32::MAX or works
+/// at some 3 000 000 000): logged relative to the base; the stored sentinels 0 (unset) and 1 (done) are kept
+fn pos(x: u32, base: u32) -> i64 {
+    if x <= 1 { x as i64 } else { to_model(x.wrapping_sub(base)) }
+}
+
 // ---------------------------------------------------------------------------------------------
 // universe
 // ---------------------------------------------------------------------------------------------
@@ -170,6 +176,7 @@ struct Sys {
     target: Address,
     target2: Address,
     ids: Vec<(String, BytesN<32>)>,
+    base: u32,
 }
 
 fn bytes(e: &Env, b: u8) -> BytesN<32> {
@@ -177,8 +184,8 @@ fn bytes(e: &Env, b: u8) -> BytesN<32> {
 }
 
 impl Sys {
-    fn new(flavour: &str, min0: i64) -> Sys {
-        let e = new_env(&LedgerCfg { seq: NOW0, ..Default::default() });
+    fn new(flavour: &str, min0: i64, base: u32) -> Sys {
+        let e = new_env(&LedgerCfg { seq: base + NOW0, ..Default::default() });
         let target = e.register(target::Target, ());
         let target2 = e.register(target::Target, ());
         let min0 = to_real(min0);
@@ -196,7 +203,7 @@ impl Sys {
             }
             f => panic!("flavour {f}"),
         };
-        let mut sys = Sys { e, c, fl, target, target2, ids: vec![] };
+        let mut sys = Sys { e, c, fl, target, target2, ids: vec![], base };
         // ids in dependency order (a predecessor field is the id of an earlier entry)
         for name in ["A", "G", "B", "C", "D"] {
             let f = sys.fields(name);
@@ -332,7 +339,7 @@ impl Sys {
             let b = |v: Option<bool>| v.map(Value::Bool).unwrap_or(json!("getter failed"));
             ops.insert(
                 name.clone(),
-                json!({"state": st, "ledger": ledger.map(to_model).unwrap_or(-1), "exists": b(exists),
+                json!({"state": st, "ledger": ledger.map(|x| pos(x, self.base)).unwrap_or(-1), "exists": b(exists),
                        "pending": b(pending), "ready": b(ready), "done": b(done), "calls": calls}),
             );
         }
@@ -344,7 +351,7 @@ impl Sys {
     fn step(&mut self, op: &Value) -> Value {
         set_seq(&self.e, seq(&self.e) + n(op, "dt") as u32);
         let e = &self.e;
-        let now = to_model(seq(e));
+        let now = pos(seq(e), self.base);
         let kind = s(op, "op");
         let mut same = false;
         let mut retid = false;
@@ -449,7 +456,7 @@ impl Sys {
                 controller::TimelockControllerClient::new(&self.e, &self.c).try_get_operation_ledger(&id).ok().and_then(|r| r.ok())
             }
         };
-        l.map(to_model).unwrap_or(-1)
+        l.map(|x| pos(x, self.base)).unwrap_or(-1)
     }
 }
 
@@ -458,8 +465,8 @@ fn reset_event(sys: &Sys, flavour: &str, min0: i64) -> Value {
     for u in UNIVERSE.iter() {
         pred.insert(u.0.to_string(), json!(u.4));
     }
-    json!({"op": {"op": "reset", "id": "none", "delay": 0, "chg": "none", "dt": 0, "flavour": flavour, "min0": min0},
-           "pred": Value::Object(pred), "now": to_model(seq(&sys.e)), "res": "ok", "err": 0, "obs": sys.obs(false, false)})
+    json!({"op": {"op": "reset", "id": "none", "delay": 0, "chg": "none", "dt": 0, "flavour": flavour, "min0": min0, "base": sys.base.to_string()},
+           "pred": Value::Object(pred), "now": pos(seq(&sys.e), sys.base), "res": "ok", "err": 0, "obs": sys.obs(false, false)})
 }
 
 fn main() {
@@ -473,7 +480,8 @@ fn main() {
                 };
                 let min0 = b.cfg.get("min0").and_then(|v| v.as_i64()).unwrap_or(1);
                 for fl in flavours {
-                    let mut sys = Sys::new(&fl, min0);
+                    let base: u32 = b.cfg.get("base").and_then(|v| v.as_str()).and_then(|x| x.parse().ok()).unwrap_or(0);
+                    let mut sys = Sys::new(&fl, min0, base);
                     t.reset(reset_event(&sys, &fl, min0));
                     for op in &b.ops {
                         let ev = sys.step(op);
@@ -489,11 +497,13 @@ fn main() {
             for run in 0..runs {
                 let fl = if run % 3 == 2 { "controller" } else { "thin" };
                 let min0 = *pick(&mut r, &[0i64, 1, 1, 2]);
-                let mut sys = Sys::new(fl, min0);
+                // "high" runs: every fourth run starts just below i32::MAX (and crosses it) or at 3 000 000 000; small delays only
+                let base: u32 = if run % 4 == 3 { *pick(&mut r, &[i32::MAX as u32 - 25, i32::MAX as u32 - 14, 3_000_000_000u32]) } else { 0 };
+                let mut sys = Sys::new(fl, min0, base);
                 t.reset(reset_event(&sys, fl, min0));
                 let mut min = min0;
                 for _ in 0..len {
-                    let now = to_model(seq(&sys.e));
+                    let now = pos(seq(&sys.e), sys.base);
                     let kind = *pick(
                         &mut r,
                         &["schedule", "schedule", "schedule", "execute", "execute", "execute", "execute", "cancel", "set_min_delay", "hash"],
@@ -514,7 +524,7 @@ fn main() {
                             let near = [MU32MAX, MU32MAX - 1, MU32MAX - now - dt, MU32MAX - now - dt - 1, MU32MAX - now - dt + 1];
                             let delay = match r.gen_range(0..12) {
                                 0 => (min - 1).max(0),
-                                1 => *pick(&mut r, &near),
+                                1 if base == 0 => *pick(&mut r, &near),
                                 2 | 3 | 4 => min,
                                 5 => min + 1,
                                 _ => *pick(&mut r, &[0i64, 1, 2, 3, 5]),
@@ -537,7 +547,7 @@ fn main() {
                         }
                         "cancel" => json!({"op": "cancel", "id": id, "delay": 0, "chg": "none", "dt": dt}),
                         "set_min_delay" => {
-                            let d = *pick(&mut r, &[0i64, 0, 1, 1, 2, 2, 3, 4, MU32MAX]);
+                            let d = *pick(&mut r, &[0i64, 0, 1, 1, 2, 2, 3, 4, if base == 0 { MU32MAX } else { 5 }]);
                             json!({"op": "set_min_delay", "id": "none", "delay": d, "chg": "none", "dt": dt})
                         }
                         _ => json!({"op": "hash", "id": pick(&mut r, &IDS), "delay": r.gen_range(0..30), "chg": pick(&mut r, &CHG), "dt": dt}),
